@@ -1140,7 +1140,7 @@ func Mutate(c *kit.Chooser, data []byte) ([]byte, string) {
 			case "size-attack-chain":
 				return out, how
 			case "string-emptied", "string-cut-by-one", "string-halved", "string-extended", "string-as-list",
-				"list-element-dropped", "list-element-repeated", "list-as-string":
+				"list-element-dropped", "list-element-repeated", "list-as-string", "empty-string-as-empty-list":
 				return out, "wrong-shape-" + how // canonical encoding of a value of the wrong shape
 			}
 			return out, "noncanonical-" + how
